@@ -71,10 +71,11 @@ PROPS = {
         functions=[CT + "Unit.__lt__"] + [CT + "Continuum." + m for m in (
             "__init__", "add", "add_annotator", "remove", "copy", "copy_flush", "merge", "__add__", "reset_bounds", "__iter__",
             "iter_annotator", "num_units", "num_annotators", "__len__", "__bool__", "annotators", "categories", "bounds",
-            "avg_num_annotations_per_annotator", "__eq__", "__ne__", "__getitem__#annotator")],
+            "avg_num_annotations_per_annotator", "__eq__", "__ne__", "__getitem__#annotator", "__getitem__#index")],
         oracles=[CT + "Continuum.merge"],
         bounded=[dict(oracle=CT + "Continuum.__eq__",
-                      what="__getitem__ by (annotator, index) and iterunits are not under contract; __eq__ / __ne__ are (exact characterisation) and are "
+                      what="iterunits (a bare iterator object) is not under contract; __getitem__ by (annotator, index) is (the index-th unit in the documented "
+                           "order, negative indexes from the end, KeyError / IndexError exactly); __eq__ / __ne__ are (exact characterisation) and are "
                            "exercised here as well: random operation histories (add / add_annotator / remove / merge / copy / reset_bounds) replayed "
                            "against a plain set-per-annotator model, equality checked for reflexivity, symmetry, transitivity and against the model")],
         design_ref="DESIGN.md section 4 C13, appendix A.6",
